@@ -308,6 +308,14 @@ def run(chk):
         x, y, z = rng.uniform(-7e6, 7e6), rng.uniform(-7e6, 7e6), rng.uniform(-7e6, 7e6)
         if rng.random() < 0.1:
             x, y = 0.0, 0.0
+        if _ % 10 in (3, 6, 8):
+            # points exactly on the coordinate planes (one horizontal coordinate exactly zero, either sign of the other; signed zeros;
+            # the polar axis): longitudes of exactly +-90 and 180 degrees, as mesh vertices on those planes have them
+            k_ = (_ // 10) % 8
+            mag = rng.choice([1.0, 2.0, 6371000.0, rng.uniform(1e3, 7e6)])
+            x, y = [(0.0, mag), (0.0, -mag), (-mag, 0.0), (mag, 0.0), (-0.0, mag), (-mag, -0.0), (0.0, 0.0), (-0.0, -mag)][k_]
+            if _ % 10 == 8:
+                z = rng.choice([0.0, mag, -mag])
         i = cs.raw("c2s %s %s %s" % (fhex(x), fhex(y), fhex(z)),
                    "let () = (let ((a,b),c) = cartesian_to_spherical n ((%s,%s),%s) in out_vec [a;b;c])" % (ml(x), ml(y), ml(z)),
                    {"kind": "c2s", "c": [x, y, z]})
